@@ -25,7 +25,11 @@ if os.path.exists(p + ".rej"):
     s = open(p).read()
     for hunk in plus_lines(p + ".rej"):
         calls = [l for l in hunk if re.match(r"\s+_cases_t\d+\(rng, n, reqs, want\)", l)]
-        rest = [l for l in hunk if l not in calls]
+        rest = [l for l in hunk if l not in calls and not l.startswith("_STRUCTURED = ")]
+        for l in hunk:
+            for pref in re.findall(r'"(t\d+_)"', l) if l.startswith("_STRUCTURED = ") else []:
+                if f'"{pref}"' not in s.split("_STRUCTURED = ")[1].split("\n")[0]:
+                    s = s.replace('_STRUCTURED = (', f'_STRUCTURED = ("{pref}", ', 1)
         for c in calls:
             if c.strip().split("(")[0] + "(rng" in s:
                 continue
